@@ -248,6 +248,8 @@ class Gen:
                     "b": self.block(depth + 1, c2, rng.randrange(1, 3))}
             if kind not in ("getter", "setter", "evalfn", "eval_forEach") and rng.random() < 0.35:
                 node["arrow"] = True      # the callback is an arrow function with a block body
+            if kind in ("forEach", "map", "filter", "some", "every", "find", "findIndex", "reduce") and rng.random() < 0.2:
+                node["kept"] = True
             return node
         if name == "call":
             return {"t": "call", "k": self.nk(), "f": rng.randrange(ctx["fn"] + 1, ctx["nfn"]), "ctx": rng.choice(pf["ctxs"])}
@@ -433,6 +435,9 @@ def r_stmt(s, ind=""):
         head = "(a,b) => {" if s.get("arrow") else "function(a,b){"
         fn = "%s\n%s\n%sreturn %d;\n%s}" % (head, body, i2, (rv - 1) if kind == "sort" else rv, ind)
         if kind in ("forEach", "map", "filter", "some", "every", "find", "findIndex", "reduce"):
+            if s.get("kept"):
+                # the method was taken off an equal array by an EARLIER evaluation (KEPT_SETUP)
+                return "%spv(%d, KA_%s(%s));" % (ind, k, kind, fn)
             return "%spv(%d, A2.%s(%s));" % (ind, k, kind, fn)
         if kind == "sort":
             return "%spv(%d, [2,1].sort(%s));" % (ind, k, fn)
@@ -453,6 +458,12 @@ def r_stmt(s, ind=""):
         if kind == "bind":
             return "%spv(%d, (%s).bind(null)());" % (ind, k, fn)
     raise AssertionError(t)
+
+
+# evaluated on the context BEFORE the program: built-in methods that outlive the evaluation that
+# took them off their array
+KEPT_SETUP = ("var KA0=[1,2]; var KA_forEach=KA0.forEach, KA_map=KA0.map, KA_filter=KA0.filter, KA_some=KA0.some, "
+              "KA_every=KA0.every, KA_find=KA0.find, KA_findIndex=KA0.findIndex, KA_reduce=KA0.reduce; 'setup';")
 
 
 def render(prog):
@@ -778,6 +789,12 @@ def run_engine(src, faults, cap=3_000_000):
 
     for name, fn in (("p", p), ("pv", pv), ("pc", pc), ("pf", pf), ("d", d)):
         ctx.set(name, fn)
+    counting = W.S.counting
+    W.S.counting = False
+    try:
+        ctx.eval(KEPT_SETUP)
+    finally:
+        W.S.counting = counting
     out = run_eval(ctx, src, cap)
     return {"log": log, "kind": out["kind"], "cls": out.get("cls"), "msg": out.get("msg"), "value": out.get("value"),
             "decisions": st["n"], "work": out["end_work"] - out["start_work"]}
